@@ -636,3 +636,10 @@ func init() {
 		Assumptions: []string{"schedules are whatever the Go scheduler produces on 16 cores (not enumerated); the Lean theorem covers every schedule of the modelled accesses", "data-race freedom itself is not a theorem (partial)"},
 	})
 }
+
+// rule addenda (rounds 9-12): what the evidence says about the coverage of a run
+func init() {
+	if p := registry["C12"]; p != nil {
+		p.Rule += " closefail: Close of a logical channel while the transport refuses the teardown packet (once / for good): the id is no longer routed, the channel answers closed, the other channel still gets its packages. duplex: on 1..5 channels concurrently over one transport, 1..6 rounds of [first part of a package arrives, the owner sends a message, the rest arrives, the package and the final DONE are delivered]."
+	}
+}
